@@ -1,9 +1,12 @@
-// unit bitfield_fixed: src/bitfield/fixed.rs against the bit-exact view
+// unit bitfield: src/bitfield/fixed.rs and src/bitfield/dynamic.rs against the bit-exact view and the JS page layout
 #![feature(allocator_api)]
 use vstd::prelude::*;
 verus! {
 
 //@include shim/std_gaps.rs
+//@include shim/intmap.rs
+//@include shim/either.rs
+//@include shim/common_types.rs
 
 /*@ item src/bitfield/fixed.rs const FIXED_BITFIELD_LENGTH @*/
 /*@ item src/bitfield/fixed.rs const FIXED_BITFIELD_BYTES_LENGTH @*/
@@ -65,10 +68,10 @@ impl FixedBitfield {
         index < 32768
     ensures:
         r == self.bit(index as int)
-    after `let offset = index & (n - 1);`:
+    after `let offset = index &`:
         assert(index & 31 == index % 32) by (bit_vector);
         assert(index & 31 <= index) by (bit_vector);
-    before `self.bitfield[i] & (1 << offset) != 0`:
+    after `.expect("Could not fit 64 bit integer to usize on this architecture");`:
         let ghost w = self.bitfield@[i as int];
         assert((w & (1u32 << offset) != 0) == ((w >> offset) & 1 == 1)) by (bit_vector)
             requires offset < 32;
@@ -83,10 +86,10 @@ impl FixedBitfield {
         forall|k: int| 0 <= k < 32768 ==> final(self).bit(k) == (if k == index { value } else { old(self).bit(k) }),
         r == (old(self).bit(index as int) != value),
         final(self).dirty == old(self).dirty
-    after `let offset = index & (n - 1);`:
+    after `let offset = index &`:
         assert(index & 31 == index % 32) by (bit_vector);
         assert(index & 31 <= index) by (bit_vector);
-    after `let mask = 1 << offset;`:
+    after `let mask =`:
         let ghost w0 = self.bitfield@[i as int];
         assert((w0 & (1u32 << offset) != 0) == bit_of(w0, offset)) by (bit_vector)
             requires offset < 32;
@@ -107,7 +110,7 @@ impl FixedBitfield {
             == (if start <= k < start + length { value } else { old(self).bit(k) }),
         r == (final(self).bitfield@ != old(self).bitfield@),
         final(self).dirty == old(self).dirty
-    after `let mut offset = start & (n - 1);`:
+    after `let mut offset = start`:
         assert(start & 31 == start % 32) by (bit_vector);
         assert(start & 31 <= start) by (bit_vector);
     loop 1:
@@ -124,7 +127,7 @@ impl FixedBitfield {
             changed ==> (exists|j: int| 0 <= j < i as int && self.bitfield@[j] != old(self).bitfield@[j]),
             !changed ==> self.bitfield@ == old(self).bitfield@
         decreases 1024 - i
-    before `let mask_seed = if power == 32 {`:
+    before `let mask_seed =`:
         assert(power as int == (if remaining <= 32 - offset { remaining as int } else { 32 - offset as int }));
         proof {
             if power < 32 {
@@ -133,7 +136,7 @@ impl FixedBitfield {
                 vstd::arithmetic::power2::lemma_pow2_pos(power as nat);
             }
         }
-    after `let mask: u32 = mask_seed << offset;`:
+    after `let mask: u32 =`:
         let ghost w = self.bitfield@[i as int];
         let ghost iw = i as int;
         let ghost snap = self.bitfield@;
@@ -160,7 +163,7 @@ impl FixedBitfield {
         assert(((w & mask) != 0) ==> ((w & !mask) != w)) by (bit_vector);
         assert(((w & mask) == mask) ==> (forall|o: u32| o < 32 && bit_of(mask, o) ==> bit_of(w, o))) by (bit_vector);
         assert(((w & mask) == 0) ==> (forall|o: u32| o < 32 && bit_of(mask, o) ==> !bit_of(w, o))) by (bit_vector);
-    before `remaining -= (n - offset) as i64;`:
+    before `remaining -=`:
         assert forall|k: int| 0 <= k < 32 * iw + 32 implies #[trigger] self.bit(k)
                 == (if start <= k < end { value } else { old(self).bit(k) }) by {
             if k < 32 * iw {
@@ -202,10 +205,10 @@ impl FixedBitfield {
             forall|k: int| 0 <= k < 8 * (i - data_index) ==> #[trigger] bit_of(bitfield@[k / 32], (k % 32) as u32)
                 == bytes_bit(data@, 8 * data_index + k)
         decreases limit + 4 - i
-    before `bitfield[(i - data_index) / 4] = value;`:
+    before `] = value;`:
         let ghost bf0 = bitfield@;
         let ghost wi = (i - data_index) / 4;
-    before `i += 4;`:
+    before `i += `:
         proof {
             lemma_word_bytes(value, data@[i as int], data@[i + 1], data@[i + 2], data@[i + 3]);
             assert forall|k: int| 0 <= k < 8 * (i + 4 - data_index) implies
@@ -237,7 +240,7 @@ impl FixedBitfield {
         invariant
             i == 4 * it.index@,
             forall|k: int| 0 <= k < 8 * i ==> #[trigger] bytes_bit(data@, k) == self.bit(k)
-    before `i += 4;`:
+    before `i += `:
         proof {
             let ghost w = *elem;
             let ghost wi = it.index@ as int;
@@ -256,9 +259,149 @@ impl FixedBitfield {
                 }
             }
         }
-    before `data[i] = bytes[0];`:
+    before `data[i] =`:
         let ghost data0 = data@;
     @*/
+}
+
+// ======================= src/bitfield/dynamic.rs (R5: RefCell erased) =======================
+/*@ item src/bitfield/dynamic.rs const DYNAMIC_BITFIELD_PAGE_SIZE @*/
+/*@ item src/bitfield/dynamic.rs struct DynamicBitfield ; refcell @*/
+
+impl DynamicBitfield {
+    pub open spec fn bit(&self, i: int) -> bool {
+        let p = (i / 32768) as u64;
+        0 <= i <= u64::MAX && self.pages@.contains_key(p) && self.pages@[p].bit(i % 32768)
+    }
+    pub open spec fn wf(&self) -> bool {
+        &&& forall|p: u64| self.pages@.contains_key(p) ==> p <= self.biggest_page_index
+        &&& forall|p: u64| #![trigger self.pages@[p]] self.pages@.contains_key(p) && self.pages@[p].dirty ==> self.unflushed@.contains(p)
+        &&& forall|j: int| 0 <= j < self.unflushed@.len() ==> self.pages@.contains_key(#[trigger] self.unflushed@[j])
+    }
+
+    /*@ fn src/bitfield/dynamic.rs DynamicBitfield::get ; refcell
+    tags: C08 C01
+    result: r
+    ensures:
+        r == self.bit(index as int)
+    after `let j = index &`:
+        assert(index & 32767 == index % 32768) by (bit_vector);
+    @*/
+
+    /*@ fn src/bitfield/dynamic.rs DynamicBitfield::update ; refcell
+    tags: C08 C01 C02
+    requires:
+        old(self).wf(),
+        bitfield_update.start + bitfield_update.length <= u64::MAX
+    ensures:
+        final(self).wf(),
+        forall|k: int| #![trigger final(self).bit(k)] final(self).bit(k) == (if bitfield_update.start <= k < bitfield_update.start + bitfield_update.length { !bitfield_update.drop } else { old(self).bit(k) }),
+        forall|k: int| 0 <= k && #[trigger] final(self).bit(k) != old(self).bit(k) ==> final(self).unflushed@.contains((k / 32768) as u64),
+        forall|x: u64| old(self).unflushed@.contains(x) ==> final(self).unflushed@.contains(x)
+    @*/
+
+    /*@ fn src/bitfield/dynamic.rs DynamicBitfield::set_range ; refcell
+    tags: C08 C01 C02
+    requires:
+        old(self).wf(),
+        start + length <= u64::MAX
+    ensures:
+        final(self).wf(),
+        forall|k: int| #![trigger final(self).bit(k)] final(self).bit(k) == (if start <= k < start + length { value } else { old(self).bit(k) }),
+        forall|k: int| 0 <= k && #[trigger] final(self).bit(k) != old(self).bit(k) ==> final(self).unflushed@.contains((k / 32768) as u64),
+        forall|x: u64| old(self).unflushed@.contains(x) ==> final(self).unflushed@.contains(x)
+    after `let mut j = start &`:
+        assert(start & 32767 == start % 32768) by (bit_vector);
+        let ghost len0 = length;
+    loop 1:
+        invariant
+            self.wf(),
+            j < 32768,
+            length > 0 ==> i as int * 32768 + j + length == start + len0,
+            length == 0 ==> i as int * 32768 + j >= start + len0,
+            start + len0 <= u64::MAX,
+            j == 0 || i as int * 32768 + j == start,
+            start <= i as int * 32768 + j,
+            forall|p: u64| p >= i ==> #[trigger] self.pages@.contains_key(p) == old(self).pages@.contains_key(p),
+            forall|p: u64| p >= i && self.pages@.contains_key(p) ==> #[trigger] self.pages@[p] == old(self).pages@[p],
+            forall|k: int| 0 <= k < i as int * 32768 ==> #[trigger] self.bit(k) == (if start <= k < start + len0 { value } else { old(self).bit(k) }),
+            forall|k: int| 0 <= k < i as int * 32768 && #[trigger] self.bit(k) != old(self).bit(k) ==> self.unflushed@.contains((k / 32768) as u64),
+            forall|x: u64| old(self).unflushed@.contains(x) ==> self.unflushed@.contains(x)
+        decreases length
+    last:
+        proof {
+            assert forall|k: int| #![trigger self.bit(k)] self.bit(k) == (if start <= k < start + len0 { value } else { old(self).bit(k) })
+                && (0 <= k && self.bit(k) != old(self).bit(k) ==> self.unflushed@.contains((k / 32768) as u64)) by {
+                if 0 <= k <= u64::MAX && k >= i as int * 32768 {
+                    let p = (k / 32768) as u64;
+                    assert(p >= i);
+                    assert(self.pages@.contains_key(p) == old(self).pages@.contains_key(p));
+                }
+            }
+        }
+    before `if !self.pages.contains_key(i)`:
+        let ghost s0 = *self;
+        let ghost ii = i;
+        let ghost jj = j;
+    before `let mut p = self.pages.get_mut(i)`:
+        let ghost s1 = *self;
+        assert(s1.pages@.contains_key(ii));
+        assert(forall|k: int| 0 <= k < 32768 ==> !s0.pages@.contains_key(ii) ==> !s1.pages@[ii].bit(k));
+        assert(s0.pages@.contains_key(ii) ==> s1.pages@[ii] == s0.pages@[ii]);
+        assert(!s0.pages@.contains_key(ii) ==> !s1.pages@[ii].dirty);
+    after `let changed = p.set_range`:
+        let ghost pmid = *p;
+    before `j = 0;`:
+        proof {
+            lemma_push_contains(s1.unflushed@, ii);
+            assert(s1.unflushed@ == s0.unflushed@);
+            assert(self.unflushed@ == s1.unflushed@ || self.unflushed@ == s1.unflushed@.push(ii));
+            let pg = self.pages@[ii];
+            let pg1 = s1.pages@[ii];
+            assert(self.pages@ == s1.pages@.insert(ii, pg));
+            assert(forall|q: u64| q != ii ==> self.pages@.contains_key(q) == s0.pages@.contains_key(q));
+            assert(forall|q: u64| q != ii && self.pages@.contains_key(q) ==> #[trigger] self.pages@[q] == s0.pages@[q]);
+            assert forall|k: int| 0 <= k < (ii as int + 1) * 32768 implies
+                #[trigger] self.bit(k) == (if start <= k < start + len0 { value } else { old(self).bit(k) })
+                && (self.bit(k) != old(self).bit(k) ==> self.unflushed@.contains((k / 32768) as u64)) by {
+                if k < ii as int * 32768 {
+                    assert((k / 32768) as u64 != ii);
+                    assert(self.bit(k) == s0.bit(k));
+                    assert(s0.unflushed@.contains((k / 32768) as u64) ==> self.unflushed@.contains((k / 32768) as u64));
+                } else {
+                    assert(k / 32768 == ii as int);
+                    let kk = k % 32768;
+                    assert(k == ii as int * 32768 + kk);
+                    assert(self.bit(k) == pg.bit(kk));
+                    assert(pg.bitfield@ == pmid.bitfield@);
+                    assert(pmid.bit(kk) == (if range_start <= kk < range_start + range_end { value } else { pg1.bit(kk) }));
+                    assert(pg.bit(kk) == pmid.bit(kk));
+                    assert(old(self).bit(k) == pg1.bit(kk));
+                    assert((range_start <= kk < range_start + range_end) == (start <= k < start + len0));
+                    if !changed {
+                        assert(pmid.bitfield@ == pg1.bitfield@);
+                        assert(pg.bit(kk) == pg1.bit(kk));
+                    }
+                }
+            }
+        }
+    @*/
+}
+
+pub proof fn lemma_push_contains<T>(s: Seq<T>, x: T)
+    ensures forall|y: T| #[trigger] s.push(x).contains(y) <==> (s.contains(y) || y == x)
+{
+    assert forall|y: T| #[trigger] s.push(x).contains(y) <==> (s.contains(y) || y == x) by {
+        if s.push(x).contains(y) {
+            let j = choose|j: int| 0 <= j < s.push(x).len() && s.push(x)[j] == y;
+            if j < s.len() { assert(s[j] == y); }
+        }
+        if s.contains(y) {
+            let j = choose|j: int| 0 <= j < s.len() && s[j] == y;
+            assert(s.push(x)[j] == y);
+        }
+        if y == x { assert(s.push(x)[s.len() as int] == y); }
+    }
 }
 
 } // verus!
